@@ -286,7 +286,9 @@ fn fading(v: &V, seed: u64, out: &mut TrialOut, rng: &mut Rng) {
     }
     // common persistently exciting tail
     let mut st = seed.wrapping_mul(0x9E37) | 1;
-    let tail: Vec<f64> = (0..tail_len).map(|t| bounded_input(Wave::Noise, t, &mut st)).collect();
+    // the tail stays inside half the range the prefixes used: an early extreme that is never
+    // forgotten (an all-time instead of a window extremum) is then never overwritten by the tail
+    let tail: Vec<f64> = (0..tail_len).map(|t| 0.5 * bounded_input(Wave::Noise, t, &mut st)).collect();
     // reference denominators of the ratio views on instance A's complete history are not needed:
     // after the merge both instances see the same tail; use the tail alone for conditioning
     let dens: Option<Vec<f64>> = v.case.as_ref().filter(|c| matches!(c.vi, 3 | 5 | 6)).map(|c| reference::<f64>(c, &tail).into_iter().map(|(_, d)| d.unwrap_or(1.0)).collect());
@@ -351,12 +353,12 @@ impl Monitor for C09 {
         "C09"
     }
     fn plan(&self, cfg: &Cfg) -> u64 {
-        (9 * ns(cfg).len()) as u64 * cfg.tier.pick(6, 16) + cfg.tier.pick(60, 2000)
+        (9 * ns(cfg).len()) as u64 * cfg.tier.pick(6, 12) + cfg.tier.pick(60, 1000)
     }
     fn trial(&self, cfg: &Cfg, idx: u64, out: &mut TrialOut) {
         let nl = ns(cfg);
         let mut rng = Rng::for_trial(cfg.seed, "C09", idx);
-        let main = (9 * nl.len()) as u64 * cfg.tier.pick(6, 16);
+        let main = (9 * nl.len()) as u64 * cfg.tier.pick(6, 12);
         if idx >= main {
             // chain of two recursive views: bounded-input run, finite and below the composed bound
             let v1 = view(rng.usize(0, 4), rng.usize(2, 12), &mut rng);
@@ -409,7 +411,7 @@ impl Monitor for C09 {
             }
         };
         // the run length shrinks for the O(N) per update views at large N
-        let l = (cfg.tier.pick(10_000usize, 200_000) / (1 + v.n / 64)).max(2_000);
+        let l = (cfg.tier.pick(10_000usize, 60_000) / (1 + v.n / 64)).max(2_000);
         if idx % 61 == 0 {
             out.sample(format!("{}: input {:?} bounded by 1, runs of {} / {} / {} updates against the bound {:?}", v.spec.show(), wave, l, 4 * l, 16 * l, bound_of(&v, 1.0)));
         }
